@@ -11,9 +11,65 @@ from ..program import AnalysisError, ClassInfo, FuncEnv, FuncUnit, dotted, unpar
 from ..report import Collector
 
 
+_TUPLE_CONSTS: Dict[str, ast.Tuple] = {}
+_MOD_CONSTS: Dict[str, Dict[str, ast.Tuple]] = {}
+
+
+def _module_tuple_consts(mod) -> Dict[str, ast.Tuple]:
+    cached = getattr(mod, '_sa_tuple_consts', None)
+    if cached is None:
+        saved = dict(_TUPLE_CONSTS)
+        _load_tuple_consts(mod)
+        cached = dict(_TUPLE_CONSTS)
+        _TUPLE_CONSTS.clear()
+        _TUPLE_CONSTS.update(saved)
+        mod._sa_tuple_consts = cached
+    return cached
+
+
+def _expanded_text(e: ast.AST, mod) -> str:
+    """Text of a guard with module-level tuple constants replaced by the display they name."""
+    consts = _module_tuple_consts(mod)
+    if not consts or not any(isinstance(n, ast.Name) and n.id in consts for n in ast.walk(e)):
+        return text(e)
+    import copy
+
+    class Sub(ast.NodeTransformer):
+        def visit_Name(self, node):
+            if isinstance(node.ctx, ast.Load) and node.id in consts:
+                return copy.deepcopy(consts[node.id])
+            return node
+    return text(ast.fix_missing_locations(Sub().visit(copy.deepcopy(e))))
+
+
+def _load_tuple_consts(mod) -> None:
+    """NAME = (ClassA, ClassB, ...) at module level, assigned once: usable wherever the display itself is."""
+    _TUPLE_CONSTS.clear()
+    counts: Dict[str, int] = {}
+    for st in mod.tree.body:
+        tg = None
+        if isinstance(st, ast.Assign) and len(st.targets) == 1 and isinstance(st.targets[0], ast.Name):
+            tg, val = st.targets[0].id, st.value
+        elif isinstance(st, ast.AnnAssign) and isinstance(st.target, ast.Name) and st.value is not None:
+            tg, val = st.target.id, st.value
+        if tg is None:
+            continue
+        counts[tg] = counts.get(tg, 0) + 1
+        if isinstance(val, ast.Tuple) and all(isinstance(e, (ast.Name, ast.Attribute)) for e in val.elts):
+            _TUPLE_CONSTS[tg] = val
+    for n in ast.walk(mod.tree):
+        if isinstance(n, ast.Global):
+            for nm in n.names:
+                _TUPLE_CONSTS.pop(nm, None)
+    for nm, c in counts.items():
+        if c > 1:
+            _TUPLE_CONSTS.pop(nm, None)
+
+
 def _builder_class(ctx: Ctx) -> ClassInfo:
     for ci in ctx.p.classes.values():
         if ci.module.name.endswith('dag_builders.annotation.builder') and 'build' in ci.methods:
+            _load_tuple_consts(ci.module)
             return ci
     raise AnalysisError('annotation builder class not found')
 
@@ -34,7 +90,10 @@ def _isinstance_names(test: ast.AST, var: Optional[str] = None) -> List[str]:
         if isinstance(n, ast.Call) and isinstance(n.func, ast.Name) and n.func.id == 'isinstance' and len(n.args) == 2:
             if var is not None and not (isinstance(n.args[0], ast.Name) and n.args[0].id == var):
                 continue
-            elts = n.args[1].elts if isinstance(n.args[1], ast.Tuple) else [n.args[1]]
+            second = n.args[1]
+            if isinstance(second, ast.Name) and second.id in _TUPLE_CONSTS:
+                second = _TUPLE_CONSTS[second.id]          # module-level constant naming the classes
+            elts = second.elts if isinstance(second, ast.Tuple) else [second]
             for e in elts:
                 d = dotted(e)
                 if d:
@@ -60,7 +119,24 @@ def _traverse_function(ctx: Ctx) -> FuncUnit:
             best = m
     if best is None:
         raise AnalysisError('traversal function (worklist over marks) not found')
-    return best
+    # mark branches that were outlined into methods (`if isinstance(mark, X): self._add_x(...)`) are spliced back
+    from ..norm import inline_view
+    only = set()
+    for n in ast.walk(best.node):
+        if isinstance(n, ast.If) and _isinstance_names(n.test) and not n.orelse:
+            body = [s_ for s_ in n.body if not (isinstance(s_, ast.Expr) and isinstance(s_.value, ast.Constant))]
+            if body and all(isinstance(s_, ast.Expr) and isinstance(s_.value, ast.Call) and isinstance(s_.value.func, ast.Attribute)
+                            and isinstance(s_.value.func.value, ast.Name) and s_.value.func.value.id == 'self' for s_ in body) \
+                    and len(body) == 1:
+                only |= {id(s_) for s_ in body}
+    if not only:
+        return best
+    view, spliced = inline_view(ctx.p, best, only)
+    if spliced:
+        note = f'traversal analysed with outlined mark branches spliced in: {sorted(set(spliced))}'
+        if note not in ctx.notes:
+            ctx.notes.append(note)
+    return view
 
 
 def _branches(ctx: Ctx, trav: FuncUnit) -> Tuple[ast.For, str, str, Dict[str, ast.If]]:
@@ -134,17 +210,28 @@ def rule_marks(ctx: Ctx, out: Collector) -> None:
     trav = _traverse_function(ctx)
     accepted: Set[str] = set()
     rejected: Set[str] = set()
+    # a mark class is accepted when the statement that records the (name, mark) pair runs under isinstance(mark, cls),
+    # rejected when a raise does - whatever the spelling (`if not isinstance: continue` / `if isinstance: append`)
     for n in ast.walk(mm.node):
-        if isinstance(n, ast.If):
-            names = _isinstance_names(n.test)
-            if not names:
-                continue
-            raises = any(isinstance(x, ast.Raise) for x in ast.walk(ast.Module(body=n.body, type_ignores=[])))
-            negated = isinstance(n.test, ast.UnaryOp) and isinstance(n.test.op, ast.Not)
-            if raises and not negated:
-                rejected |= set(names)
-            elif negated and always_leaves(n.body):
-                accepted |= set(names)
+        is_record = isinstance(n, ast.Call) and isinstance(n.func, ast.Attribute) and n.func.attr in ('append', 'add', 'extend')
+        is_yield = isinstance(n, (ast.Yield,))
+        if is_record or is_yield:
+            for e, pol in guards(mm.node, n):
+                if pol:
+                    accepted |= set(_isinstance_names(e))
+        elif isinstance(n, ast.Raise):
+            for e, pol in guards(mm.node, n):
+                if pol:
+                    rejected |= set(_isinstance_names(e))
+        elif isinstance(n, (ast.ListComp, ast.GeneratorExp, ast.SetComp)):
+            for gen in n.generators:
+                for cond in gen.ifs:
+                    parts: list = []
+                    from ..guards import decompose
+                    decompose(cond, True, parts)
+                    for e, pol in parts:
+                        if pol:
+                            accepted |= set(_isinstance_names(e))
     loop, mark_var, kw_var, br = _branches(ctx, trav)
     handled = set(br)
     cons = f'{mm.module.name}::{mm.qualname}::accepted marks == translated marks'
@@ -488,14 +575,18 @@ def rule_node_map_and_validation(ctx: Ctx, out: Collector) -> None:
     b = _builder_class(ctx)
     base = f'{trav.module.name}::{trav.qualname}'
     marks = _mark_classes(ctx)
-    # ---- VL-1
+    # ---- VL-1 (on the function as written: the validation call is a statement of the worklist loop)
     wl = None
     for n in ast.walk(trav.node):
         if isinstance(n, ast.While):
             wl = n
     if wl is None:
         raise AnalysisError('worklist loop not found')
-    stmts = wl.body
+    wl_src = None
+    for n in ast.walk(ctx.p.func(trav.fid).node):
+        if isinstance(n, ast.While):
+            wl_src = n
+    stmts = (wl_src or wl).body
     idx_pop = next((i for i, s in enumerate(stmts) if isinstance(s, ast.Assign) and isinstance(s.targets[0], ast.Name)
                     and s.targets[0].id == cur), None)
     idx_val = next((i for i, s in enumerate(stmts) if isinstance(s, ast.Expr) and isinstance(s.value, ast.Call)
@@ -787,9 +878,9 @@ def rule_rejections(ctx: Ctx, out: Collector) -> None:
         details = []
         for u, r in sites:
             gs = guards(u.node, r)
-            gtxt = ' && '.join(('' if pol else 'not ') + text(e) for e, pol in gs)
+            gtxt = ' && '.join(('' if pol else 'not ') + _expanded_text(e, u.module) for e, pol in gs)
             const_false = any((isinstance(e, ast.Constant) and bool(e.value) != pol) for e, pol in gs)
-            missing = [t for t in tokens if t not in gtxt and t not in ' '.join(text(e) for e, pol in gs)]
+            missing = [t for t in tokens if t not in gtxt]
             details.append(f'{u.qualname}: {gtxt or "<unconditional>"}')
             if not missing and not const_false and gs:
                 good = True
